@@ -1,20 +1,9 @@
-"""Which properties are claimed (source of MANIFEST.json, see gen_manifest.py)."""
+"""Which properties are claimed: one JSON file per property under harness/claims/ (text, design_ref, note,
+technique); source of MANIFEST.json (see gen_manifest.py)."""
+import json
+from pathlib import Path
+
 HOOK_COMMITS = ["782cf1a12103aa15851c93212c429c7a23e224eb"]
-_NOTE = ("Trusted: Lean kernel (+ propext, Classical.choice, Quot.sound), the hand-written model as far as the "
-         "correspondence check exercises it, the Python harness and oracle; CPython/numba/numpy/scipy/sklearn are "
-         "modelled, not verified. ")
-CLAIMED = {
-    "C09": {
-        "text": "Theorems (all lengths, all merge lists, every pair-selection function): the index-level contract_pair loop "
-                "never fails and equals the greedy contraction; encode is lossless under the learned token table; training "
-                "encodings equal the replay of the merge list; tokens are concatenations of their pairs; budget respected. "
-                "Tied to /repo by running the real kernels and estimator against the model on exhaustive short strings and "
-                "random unicode corpora, and by the decode/round-trip oracle on the implementation.",
-        "design_ref": "DESIGN.md §5 C09",
-        "note": _NOTE + "pruning_max_freq_pair (which pair is merged) is a parameter of the model, not modelled; fit on a corpus "
-                        "without a repeated adjacent pair raises (known finding).",
-        "technique": "Lean 4 proof (induction over the loop / merge list) + differential correspondence with the njit kernels",
-    },
-}
+CLAIMED = {p.stem: json.load(open(p)) for p in sorted((Path(__file__).parent / "claims").glob("C*.json"))}
 _TODO = "check not built yet in this round (Lean model + correspondence in progress); no other technique substituted"
 NOT_APPLICABLE = {f"C{i:02d}": _TODO for i in range(1, 21) if f"C{i:02d}" not in CLAIMED}
